@@ -80,6 +80,10 @@ def multi_alphabet(mw):
     ops.append(("f0", ("con", "simple")))
     if len(mw.members) > 1 and mw.members[1].ftype in ("xy", "indexed"):
         ops.append(("f1", ("con", "simple-rel")))
+    # a shared source declared late (after parameters were fixed / constrained)
+    eq = [i for i, n in enumerate(mw.member_names) if n in ("xy_ab", "xy_ac", "idx_ad", "xy_ab_x", "xy_ab_noerr", "xy_ab_relm")]
+    if not mw.shared and len(eq) >= 2:
+        ops.append(("shared", "y-abs-rho", "shl", [eq[0], eq[-1]]))
     return ops
 
 
@@ -260,10 +264,14 @@ def run_job(spec):
 
 
 def _name(o):
+    if o[0] == "shared":
+        return "shared"
     return o[1][0] if o[0] in ("m",) or (isinstance(o[0], str) and o[0].startswith("f") and o[0][1:].isdigit()) else o[0]
 
 
 def _tag(o):
+    if o[0] == "shared":
+        return "shared:%s@%s" % (o[1], o[3])
     if o[0] == "m" or (o[0].startswith("f") and o[0][1:].isdigit()):
         return o[0] + "." + ":".join(str(x) for x in o[1][:2])
     return ":".join(str(x) for x in o[:2])
@@ -274,6 +282,8 @@ def _j(o):
 
 
 def _t(o):
+    if o and o[0] == "shared":
+        return (o[0], o[1], o[2], list(o[3]))
     return tuple(tuple(x) if isinstance(x, list) else x for x in o)
 
 
